@@ -269,6 +269,21 @@ def run_case(run, inp: Input, seq: Sequence[str], tmp: str, engine: str, case: d
             run.violation(f'{inp.label} touch={list(seq)}: second read/touch/save cycle changed the file: {w}', witness=w,
                           key='second-cycle-' + classify(kind, w), engine=engine, case=case)
         run.count('cycles_completed')
+        # history on ONE object: it has been saved once already; now other views are touched and it is saved again, this time
+        # without a file name, i.e. in place over the file it was read from
+        stage = 'in-place'
+        others = [v for v in G.TOUCH_ORDER if v not in seq]
+        k0 = len(inp.label) % max(1, len(others))
+        for v in (others[k0:] + others[:k0])[:2]:
+            touch(g2, v)
+        with quiet_stdout():
+            g2.save()
+        canon_ip = G.dump_bsp(BSP(gpath))
+        for d in G.view_diffs(canon0, canon_ip):
+            d['faceids_present'] = ids_present
+            d['after'] = 'second touch + save() in place on the same object'
+            viol('content', f'after touching more views and saving in place, parsed content differs at {d["path"]}: want {G.safe(d["want"])} got {G.safe(d["got"])}', d)
+        run.count('in_place_saves_after_a_second_touch')
     except Exception as exc:
         w = {'stage': stage, 'type': type(exc).__name__, 'msg': str(exc)[:300], 'trace': traceback.format_exc()[-1800:]}
         viol('exception', f'{stage} raised {type(exc).__name__}: {str(exc)[:200]}', w)
@@ -446,7 +461,7 @@ def main(run, shard=(0, 1)) -> None:
         probe.check_reached(run, ['ParsedLump.__get__', 'BSP.save', 'BSP.read', 'compress_lzma', 'decompress_lzma',
                                   'BSP._lmp_write_water_leaf_info', 'BSP._lmp_write_faces', 'BSP._lmp_write_props',
                                   'BSP._lmp_write_detail_props', 'BSP._lmp_write_bmodels', 'BSP._lmp_write_visibility'])
-    run.require('saves_attempted', 'cycles_completed', 'read_side_checks', 'subsets_empty', 'subsets_single', 'subsets_pair',
+    run.require('saves_attempted', 'cycles_completed', 'in_place_saves_after_a_second_touch', 'read_side_checks', 'subsets_empty', 'subsets_single', 'subsets_pair',
                 'subsets_k', 'seed_file_cases', 'worlds_with_dups', 'cases_on_worlds_with_dups')
 
 
